@@ -575,10 +575,10 @@ def run(ctx):
                 continue
             sig = "%s %s batch%d" % (PROP, cls, b)
             ctx.direct.append((sig, what, {"files": files, "expected": exp}))
+        total_calls += exp["ncalls"]
+        total_fns += exp["nfn"]
         if not found:
             ok += 1
-            total_calls += exp["ncalls"]
-            total_fns += exp["nfn"]
         for rel in ("abra_src/util.abra",):
             for t in ("array<", "option<", "result<", "#host\ntype", "float", "void", "("):
                 kinds[t] = kinds.get(t, 0) + files[rel].count(t)
@@ -586,8 +586,8 @@ def run(ctx):
     ctx.coverage(
         evaluations=total_calls,
         distinct_nontrivial=total_calls,
-        rule="evaluation = one host-function call whose argument rendering on the host side and whose result rendering on the Abra side both "
-             "equalled the generator's values; each call has its own random values; batches of %d generated signatures are compiled into one crate" % nfn,
+        rule="evaluation = one host-function call made by the generated driver (argument rendering on the host side and result rendering "
+             "on the Abra side are both compared with the generator's values); each call has its own random values; batches of %d generated signatures are compiled into one crate" % nfn,
         samples=[{"util.abra": files["abra_src/util.abra"][:1500]}],
         signatures=total_fns,
         batches_confirmed=ok,
